@@ -410,6 +410,10 @@ func (c *Cluster) StartNode(n *SNode) error {
 			o.Node.Peer.SimAddNeighbor(n.Id)
 		}
 	}
+	// the external pseudo peer is a direct neighbour of everybody: replies addressed to it (confirmations,
+	// transaction requests) then take the direct path instead of the relay path, whose choice of relayer
+	// follows Go map order and would make the schedule differ from execution to execution
+	node.Peer.SimAddNeighbor(c.External().Id)
 	cache.Wait()
 	c.scheduleNodeLoops(n)
 	return nil
@@ -641,6 +645,14 @@ func (c *Cluster) flush(n *SNode) {
 			}
 		}
 	}
+	// frames for the external pseudo peer go nowhere
+	for round := 0; round < 64; round++ {
+		msgs := n.Node.Peer.SimDrain(c.External().Id, 64)
+		if len(msgs) == 0 {
+			break
+		}
+		c.Stats["sent_to_external_sink"] += len(msgs)
+	}
 }
 
 func (c *Cluster) send(from, to *SNode, data []byte) {
@@ -836,6 +848,48 @@ func (c *Cluster) scheduleNodeLoops(n *SNode) {
 		c.Q.After(c.Cfg.OpPeriod/2+c.Rng.Dur(0, 50*time.Millisecond), "agg", agg)
 	}
 	c.Q.After(c.Rng.Dur(c.Cfg.OpPeriod/4, c.Cfg.OpPeriod/2), "agg", agg)
+}
+
+// AggregateAll steps the real work and round-space aggregators of every live
+// node (one loop iteration per call of the real functions) up to iter times per
+// chain, so that they catch up with a history that was injected faster than
+// their timers tick.
+func (c *Cluster) AggregateAll(iter int) {
+	for _, n := range c.Nodes {
+		if !n.Alive {
+			continue
+		}
+		for _, id := range n.Node.SimChainIDs() {
+			if !n.Alive {
+				break
+			}
+			if !n.Node.SimChainActive(id) {
+				continue
+			}
+			for k := 0; k < iter && n.Alive; k++ {
+				if os.Getenv("VERIF_DEBUG") != "" {
+					off, _ := n.Store.ReadWorkOffset(id)
+					for _, r := range []uint64{off, off + 1} {
+						ws, _ := n.Store.ReadSnapshotWorksForNodeRound(id, r)
+						for _, w := range ws {
+							fmt.Fprintf(os.Stderr, "n%d chain %s offset %d round %d work %s signers %d has-own %v\n", n.Idx, id.String()[:6], off, r, w.Hash.String()[:6], len(w.Signers), func() bool {
+								for _, sg := range w.Signers {
+									if sg == id {
+										return true
+									}
+								}
+								return false
+							}())
+						}
+					}
+				}
+				c.Step(n, "work", func() { n.Node.SimStepWork(id) })
+				if n.Alive {
+					c.Step(n, "space", func() { n.Node.SimStepSpace(id) })
+				}
+			}
+		}
+	}
 }
 
 // pollChains steps the final-action consumer and the poll loop of every
